@@ -96,9 +96,13 @@ SvcFeasible(X, y, sv, w, C, q) ==
 (* ---------------------------------------------------------------------- *)
 (* decision function = kernel expansion                                    *)
 (*   f(x) = sum_i w_i K(sv_i, x) + b      at every recorded point x        *)
-(* kernel values: exact rationals KNum/KDen for linear / polynomial;       *)
-(* for RBF / sigmoid the values `kq` logged from Kernel::apply (scale 2^10,*)
-(* themselves subject to Kernels.tla).                                     *)
+(* kernel values: exact rationals KNum/KDen for linear / polynomial of     *)
+(* integer degree; for RBF / sigmoid / polynomial of fractional degree the *)
+(* values `kq` logged from Kernel::apply (scale 2^10, themselves subject   *)
+(* to Kernels.tla: KqRootClosed below re-checks the logged values of a     *)
+(* fractional-degree polynomial against its closed form wherever the       *)
+(* products fit, because logged values of a wrong kernel would still be    *)
+(* consistent with a decision function computed from the same kernel).     *)
 (* Identity checked:  den*(f - b) = sum_i w_i * num_i                      *)
 (* Tolerance: w_i off by 1/2 -> |num_i|/2 each; a logged num_i off by 1/2  *)
 (* -> (|w_i| + 1)/2 each; f and b off by 1/2 each -> den; + 2 den slack.   *)
@@ -129,6 +133,15 @@ ExpansionOK(k, sv, w, b, kq, pts, f, q) ==
           ExpansionAt(k, sv, w, b,
                       IF IsExactKernel(k) THEN <<>> ELSE [i \in 1..Len(sv) |-> kq[i][j]],
                       pts[j], f[j], q)
+
+(* logged values of a fractional-degree polynomial kernel against the closed form;
+   entries whose products do not fit 32 bits are skipped (KqRootChecked counts the others) *)
+KqRootClosed(k, sv, kq, pts) ==
+    \A i \in 1..Len(sv), j \in 1..Len(pts) :
+        RootInRange(k, pts[j], sv[i], kq[i][j], 10) => RootClosedAt(k, pts[j], sv[i], kq[i][j], 10)
+
+KqRootChecked(k, sv, kq, pts) ==
+    \E i \in 1..Len(sv), j \in 1..Len(pts) : RootInRange(k, pts[j], sv[i], kq[i][j], 10)
 
 (* ---------------------------------------------------------------------- *)
 (* predicted label: the larger class value exactly when f(x) > 0           *)
